@@ -118,6 +118,8 @@ pub enum Tamper {
     Rewound,
     /// honestly signed sibling of S2 (child of S1 with other content)
     Diverged,
+    /// honestly signed root commit (no parent): a history that shares no commit with S1 / S2
+    Unrelated,
     /// child of S2, owner signs `refs/heads/ghost` → an object the server does not have
     SignedObjectMissing,
     /// generation 3: honestly signed child of S2 with a new master commit
@@ -129,7 +131,8 @@ pub enum Tamper {
     Absent,
 }
 
-pub const ALL_TAMPERS: [Tamper; 16] = [
+pub const ALL_TAMPERS: [Tamper; 17] = [
+    Tamper::Unrelated,
     Tamper::Honest,
     Tamper::ExtraUnsignedRef,
     Tamper::RefMoved,
@@ -163,6 +166,7 @@ impl Tamper {
             Tamper::OddCategory => "odd-category",
             Tamper::Rewound => "rewound",
             Tamper::Diverged => "diverged",
+            Tamper::Unrelated => "diverged-unrelated",
             Tamper::SignedObjectMissing => "signed-object-missing",
             Tamper::AheadV3 => "ahead-v3",
             Tamper::AheadRollback => "ahead-rollback",
@@ -557,6 +561,12 @@ impl Fixture {
             let div_tbl = with(&v1, &[("refs/heads/master", Some(c2alt))]);
             let diverged = handmade(&div_tbl, &[], dev, false, s1);
             offered.insert(Tamper::Diverged, with(&div_tbl, &[(SIGREFS, Some(diverged))]));
+            let unrelated = {
+                let text = canonical_text(&signable(raw, &pk, &div_tbl));
+                let sig = sign(dev, &text);
+                sigrefs_commit(raw, &pk, &text, &sig, None)
+            };
+            offered.insert(Tamper::Unrelated, with(&div_tbl, &[(SIGREFS, Some(unrelated))]));
             let ghost = handmade(&v2, &[("refs/heads/ghost", nowhere)], dev, false, s2);
             offered.insert(Tamper::SignedObjectMissing, with(&v2, &[(SIGREFS, Some(ghost))]));
             let v3_tbl = with(&v2, &[("refs/heads/master", Some(c3))]);
